@@ -1,0 +1,182 @@
+//! Observation hooks for the external runtime-monitoring harness.
+//!
+//! Everything in here is compiled only with `--features verif-hooks`, is
+//! read-only with respect to interpreter state, and exists so that monitors
+//! can look at internals (token ranges, stacks, the line store, the random
+//! number generator) without the harness depending on `Debug` output.
+
+use std::{cell::Cell, ops::Range};
+
+use crate::{
+    program::{ProgramLine, ProgramLocation},
+    random::Rng,
+    string_manager::StringManager,
+    tokenizer::Tokenizer,
+    value::Value,
+    InterpreterState, TracedInterpreterError,
+};
+
+#[derive(Debug, Clone, PartialEq)]
+pub struct TokenInfo {
+    /// `{:?}` of the token.
+    pub debug: String,
+    /// `{}` of the token (its canonical LIST spelling).
+    pub display: String,
+    pub range: Range<usize>,
+}
+
+#[derive(Debug, Clone, PartialEq)]
+pub struct TokenizeError {
+    /// Variant name of the tokenization error.
+    pub kind: String,
+    /// `TokenizationError::string_range(line.len())`
+    pub range: Range<usize>,
+    pub tokens_before: Vec<TokenInfo>,
+}
+
+/// Tokenize `line` the way the interpreter and the analyzer do, after
+/// skipping `skip_bytes` bytes (the line number prefix).
+pub fn tokenize(line: &str, skip_bytes: usize) -> Result<Vec<TokenInfo>, TokenizeError> {
+    let mut string_manager = StringManager::default();
+    let tokenizer = Tokenizer::new(line, &mut string_manager).skip_bytes(skip_bytes);
+    let mut tokens = vec![];
+    for item in tokenizer {
+        match item {
+            Ok((token, range)) => tokens.push(TokenInfo {
+                debug: format!("{:?}", token),
+                display: token.to_string(),
+                range,
+            }),
+            Err(err) => {
+                let kind = format!("{:?}", err);
+                let kind = kind.split('(').next().unwrap_or("").to_string();
+                return Err(TokenizeError {
+                    kind,
+                    range: err.string_range(line.len()),
+                    tokens_before: tokens,
+                });
+            }
+        }
+    }
+    Ok(tokens)
+}
+
+/// `crate::line_number_parser::parse_line_number`.
+pub fn parse_line_number(line: &str) -> Option<(u64, usize)> {
+    crate::line_number_parser::parse_line_number(line)
+}
+
+/// One step of the random number generator from the given internal state:
+/// returns (next state, value returned).
+pub fn rng_step(state: u64) -> (u64, f64) {
+    let mut rng = Rng::new(state);
+    let value = rng.random();
+    (rng.verif_state(), value)
+}
+
+/// The value `RND(0)` returns for the given internal state.
+pub fn rng_latest(state: u64) -> f64 {
+    Rng::new(state).latest_random()
+}
+
+#[derive(Debug, Clone, PartialEq, Default)]
+pub struct Loc {
+    /// `None` is the immediate line.
+    pub line: Option<u64>,
+    pub token_index: usize,
+}
+
+impl From<ProgramLocation> for Loc {
+    fn from(value: ProgramLocation) -> Self {
+        Loc {
+            line: match value.line {
+                ProgramLine::Immediate => None,
+                ProgramLine::Line(line) => Some(line),
+            },
+            token_index: value.token_index,
+        }
+    }
+}
+
+/// Location attached to an error, if any.
+pub fn error_loc(err: &TracedInterpreterError) -> Option<Loc> {
+    err.location.map(Loc::from)
+}
+
+pub(crate) fn value_kind_and_text(value: &Value) -> (char, String) {
+    match value {
+        Value::String(string) => ('S', string.to_string()),
+        Value::Number(number) => ('N', format!("{:?}", number)),
+    }
+}
+
+#[derive(Debug, Clone, PartialEq, Default)]
+pub struct ArrayInfo {
+    pub name: String,
+    /// 'N' or 'S': the kind of the backing store.
+    pub kind: char,
+    /// Size along each axis (max index + 1).
+    pub dimensions: Vec<usize>,
+    /// Number of cells actually allocated.
+    pub cells: usize,
+    /// (linear index, text) of every cell that does not hold the default value.
+    pub non_default: Vec<(usize, String)>,
+}
+
+/// (name, 'N' | 'S' = kind of the stored value, text of the value)
+pub type Binding = (String, char, String);
+
+#[derive(Debug, Clone, PartialEq, Default)]
+pub struct Snapshot {
+    pub state: InterpreterState,
+    pub location: Loc,
+    pub immediate_line_tokens: usize,
+    pub breakpoint: Option<Loc>,
+    /// Oldest frame first: return location and bound variables.
+    pub stack: Vec<(Loc, Vec<Binding>)>,
+    /// Oldest loop first: variable, resume location, limit, step.
+    pub loops: Vec<(String, Loc, f64, f64)>,
+    /// Sorted by name: name, parameter names, location of the body.
+    pub functions: Vec<(String, Vec<String>, Loc)>,
+    /// ((location, item count) per DATA chunk, chunk index, item index)
+    pub data_cursor: Option<(Vec<(Loc, usize)>, usize, usize)>,
+    /// Sorted by name.
+    pub variables: Vec<Binding>,
+    /// Sorted by name.
+    pub arrays: Vec<ArrayInfo>,
+    pub rng_state: u64,
+    /// A reply handed over by the host and not yet consumed by INPUT.
+    pub pending_input: Option<String>,
+    pub queued_outputs: usize,
+    /// Keys of the line-number -> tokens map, sorted.
+    pub map_lines: Vec<u64>,
+    /// Content of the sorted line-number set.
+    pub set_lines: Vec<u64>,
+    /// (line, number of tokens), sorted by line.
+    pub line_token_counts: Vec<(u64, usize)>,
+    pub tracing: bool,
+    pub warnings: bool,
+    pub string_pool_bytes: usize,
+}
+
+thread_local! {
+    static TOKEN_READS: Cell<u64> = Cell::new(0);
+    static DATA_SCAN_TOKENS: Cell<u64> = Cell::new(0);
+}
+
+pub(crate) fn count_token_read() {
+    TOKEN_READS.with(|counter| counter.set(counter.get().wrapping_add(1)));
+}
+
+pub(crate) fn count_data_scan_token() {
+    DATA_SCAN_TOKENS.with(|counter| counter.set(counter.get().wrapping_add(1)));
+}
+
+/// Per-thread work counters: (reads of the token cursor, tokens visited
+/// while building the DATA index). Monotonic; callers take differences.
+pub fn work_counters() -> (u64, u64) {
+    (
+        TOKEN_READS.with(|counter| counter.get()),
+        DATA_SCAN_TOKENS.with(|counter| counter.get()),
+    )
+}
